@@ -61,7 +61,7 @@ def size_terms(record):
             continue
         if r[0] == 'array':
             out.extend([s for s in r[2] if not isinstance(s, int)])
-        elif r[0] == 'symlist':
+        elif r[0] in ('symlist', 'symlist-of-tuples'):
             out.append(r[2])
         elif r[0] == 'opt' and r[2] is not None:
             out.extend(size_terms({'x': r[2]}))
@@ -206,6 +206,10 @@ def read_value(m, r, cap=12):
         if len(dims) == 1:
             return [_pyval(m, f(z3.IntVal(i))) for i in range(dims[0])]
         return [[_pyval(m, f(z3.IntVal(i), z3.IntVal(j))) for j in range(dims[1])] for i in range(dims[0])]
+    if tag == 'symlist-of-tuples':
+        fs, n = r[1], r[2]
+        k = min(int(_pyval(m, n)), cap)
+        return [[_pyval(m, f(z3.IntVal(i))) for f in fs] for i in range(k)]
     if tag == 'symlist':
         f, n = r[1], r[2]
         k = min(int(_pyval(m, n)), cap)
